@@ -67,14 +67,22 @@ def scenario_case(sseed: int, scen: str, k: Optional[int], kind: str) -> Dict[st
 def baseline_n(sseed: int, scen: str) -> int:
     key = (sseed, scen)
     if key not in _N_CACHE:
-        r = run_case(scenario_case(sseed, scen, None, "none"))
-        if r.violations:
-            # the baseline itself (no injection) must be clean apart from the exit-time checks
-            pass
-        _N_CACHE[key] = int(r.stats.get("body_callbacks", r.callbacks))
-        _SPANS_CACHE[key] = (r.sample or {}).get("state_spans", [])
-        _EPK_CACHE[key] = (r.sample or {}).get("endpoint_ks", [])
-        _CMDK_CACHE[key] = (r.sample or {}).get("command_ks", [])
+        try:
+            r = run_case(scenario_case(sseed, scen, None, "none"))
+            stats, sample, callbacks = r.stats, r.sample, r.callbacks
+        except HarnessError:
+            # the scene cannot be set in this process (state left behind by earlier runs in code under test that keeps process-global
+            # state?): take the baseline from a fresh interpreter
+            from sim.driver import run_case_fresh
+
+            fr = run_case_fresh(PROP, scenario_case(sseed, scen, None, "none"))
+            if fr.get("error"):
+                raise
+            stats, sample, callbacks = fr.get("stats") or {}, fr.get("sample"), fr.get("callbacks") or 0
+        _N_CACHE[key] = int(stats.get("body_callbacks", callbacks))
+        _SPANS_CACHE[key] = (sample or {}).get("state_spans", [])
+        _EPK_CACHE[key] = (sample or {}).get("endpoint_ks", [])
+        _CMDK_CACHE[key] = (sample or {}).get("command_ks", [])
     return _N_CACHE[key]
 
 
@@ -105,7 +113,12 @@ def gen_case(seed: int, tier: str, index: int) -> Dict[str, Any]:
         lo, hi = rng.choice([(a, b) for (s0, a, b) in spans if s0 == st])
         k = max(1, min(n, rng.randint(lo, max(lo, hi))))
     kind = KINDS[(index // len(SCENARIOS)) % 3] if rng.random() < 0.8 else rng.choice(KINDS)     # (independent of scenario and scenario seed)
-    return scenario_case(sseed, scen, k, kind)
+    c = scenario_case(sseed, scen, k, kind)
+    if kind != "exit" and rng.random() < 0.4:
+        # datagrams reach the connection in the very instant the reset is made (received, not yet handled by any consumer): they belong to the
+        # abandoned connection and must not have any effect on the next one
+        c["cfg"]["inject"]["burst"] = True
+    return c
 
 
 def cycles_case(seed: int, cycles: int) -> Dict[str, Any]:
@@ -395,6 +408,19 @@ async def scenario(world: WorldA) -> None:
                 state["exit_injected"] = True
                 body_task["t"].cancel()
             else:
+                if inj.get("burst"):
+                    cur_spa = sysm.spa
+                    tr0 = sysm.client_endpoint_of(cur_spa) if cur_spa is not None else None
+                    if tr0 is not None and not tr0.is_closing():
+                        cid = cur_spa.client_id
+
+                        def frame0(inner: bytes) -> bytes:
+                            return b"<PACKT><SRCCN>" + SPA_ID.encode() + b"</SRCCN><DESCN>" + cid + b"</DESCN><DATAS>" + inner + b"</DATAS></PACKT>"
+                        for inner in (b"RFERR", b"WCERR", b"XQZZY\x01"):
+                            world.net.inject((SPA_IP, SPA_PORT), tr0.local, frame0(inner), delay=0.0, who="burst-at-reset")
+                        state["burst_to"] = tr0.local
+                        state["burst_seq"] = world.log.seq
+                        res.probe("datagrams_received_in_the_instant_of_the_reset")
                 state["task"] = asyncio.ensure_future(do_reset(), loop=world.loop)
                 state["task"].set_name("HARNESS:inject")
 
@@ -641,6 +667,42 @@ async def check_after_reset(world: WorldA, sysm: System, man, watcher: Watcher, 
                 sig = "late-observer-call:pump-continued-abandoned-connect"
             world.note(PROP, "late-observer-call", f"observer on {c['label']} of the abandoned connection invoked at {c['t']:.2f} by {c['task']}, "
                           f"reset returned at {t_ret:.2f} ({ctx})", sig=sig)
+    if state.get("burst_to") is not None:
+        # datagrams were received by the abandoned connection in the instant of the reset and nobody had taken them yet: they stay in ITS
+        # receive buffer.  An endpoint opened since the reset that works on that very buffer object inherits them (they block its queue or
+        # are processed by its consumers).
+        old_qs = {id(getattr(sysm.protocols.get(t.label), "queue", None)): t.label for t in snap["transports"] if sysm.protocols.get(t.label) is not None}
+        for label, pr in sysm.protocols.items():
+            if label in old_qs.values():
+                continue
+            qn = getattr(pr, "queue", None)
+            if qn is not None and id(qn) in old_qs:
+                world.note(PROP, "late-event", f"endpoint {label}, opened after the {inj['kind']}, works on the receive buffer of the abandoned endpoint "
+                           f"{old_qs[id(qn)]}, which still held the datagrams received in the instant of the reset ({ctx})",
+                           sig="late-effect:receive-buffer-of-the-abandoned-connection-reused")
+                break
+        # the RF-error / watercare-error announcements that were received in the instant of the reset belong to the abandoned connection:
+        # such an event delivered afterwards must stem from a datagram that reached one of the endpoints opened since
+        old_labels = {t.label for t in snap["transports"]}
+        for verb, evname in (("RFERR", "ERROR_RF_ERROR"), ("WCERR", "RUNNING_SPA_WATER_CARE_ERROR")):
+            for d in [d for d in man.deliveries if d["seq"] > state["burst_seq"] and d["event"].name == evname and d["t"] > t_ret]:
+                # which connection speaks: the newest endpoint from whose receive queue the delivering task took such a datagram
+                lab = None
+                for label in reversed(list(sysm.queues)):
+                    q = sysm.queues[label]
+                    if any(it["item"][0].startswith(verb.encode()) and any(pp.get("by_obj") is d.get("task_obj") for pp in it["pops"]) for it in q.items[-200:]):
+                        lab = label
+                        break
+                if lab is None or lab in old_labels:
+                    continue          # the abandoned connection's own consumer (a connect that went on after the reset: findings c')
+                tr_new = sysm.transports.get(lab)
+                fresh = sum(len(r.deliveries) for r in world.net.history if r.verb == verb and tr_new is not None and r.dst == tr_new.local)
+                if not fresh:
+                    world.note(PROP, "late-event", f"event {evname} delivered at {d['t']:.2f} by {d['task']} of connection {lab}, opened after the {inj['kind']} "
+                               f"returned at {t_ret:.2f}, although no {verb} datagram ever reached that endpoint: a datagram received by the abandoned "
+                               f"connection in the instant of the reset was processed by the next one ({ctx})",
+                               sig="late-event:leftover-datagram-processed-by-the-next-connection")
+                    break
     pump_new_start = None
     for d in man.deliveries[mark_deliv:]:
         if d["task_key"] in old_keys:
@@ -682,7 +744,7 @@ ASSUMPTIONS = [
     "a callback boundary is an await point of some task; sweeping the callback index therefore sweeps the reachable await points of the scenario",
     "observers are the harness's own recording callbacks registered through the public watch() API",
 ]
-PROBES = ["command_through_the_synchronous_api", "exit_while_the_library_reset_is_suspended_in_the_handler", "library_reset_observed", "library_reset_with_suspended_handler", "inject_in_LOCATING_SPAS", "inject_in_CONNECTING", "inject_in_CONNECTED", "inject_in_ERROR_PING_MISSED", "inject_in_ERROR_RF_FAULT",
+PROBES = ["command_through_the_synchronous_api", "datagrams_received_in_the_instant_of_the_reset", "exit_while_the_library_reset_is_suspended_in_the_handler", "library_reset_observed", "library_reset_with_suspended_handler", "inject_in_LOCATING_SPAS", "inject_in_CONNECTING", "inject_in_CONNECTED", "inject_in_ERROR_PING_MISSED", "inject_in_ERROR_RF_FAULT",
           "inject_in_ERROR_NEEDS_ATTENTION", "inject_in_ERROR_SPA_NOT_FOUND", "inject_in_LOCATED_SPAS", "inject_in_SPA_READY"]
 EXHAUSTIVE = {"quick": False, "thorough": False}
 N_QUICK = 1680
